@@ -42,6 +42,7 @@ WhyRT(c, o) ==
     ELSE IF Bodies(o.com) # RTBodies(c.t, c.src, c.wc) THEN "comments"
     ELSE IF o.rows2 # o.rows THEN "second-generation-tree"
     ELSE IF Bodies(o.com2) # Bodies(o.com) THEN "second-generation-comments"
+    ELSE IF o.again # 1 THEN "writing-changed-the-tree-or-a-second-write-differs"          \* writing only reads the tree
     ELSE ""
 
 \* large magnitudes (3*10^4 <= |v| <= max float32): the written token denotes Round4 of the value (limb arithmetic), and the value read back
